@@ -7,6 +7,8 @@ WAVES = {1: "C01 C04 C06 C07 C09 C13 C15 C16 C18 C20 C28 C30", 2: "C02 C03 C10 C
 wave = {i: w for w, ids in WAVES.items() for i in ids.split()}
 for i in "C03 C05 C14 C17 C19 C24 C29 C31 C32 C33 C35 C36".split():
     wave[i + "b"] = 4
+for i in "C01 C02 C04 C06 C07 C08 C09 C10 C11 C12 C13 C15 C16 C18 C20 C21 C22 C23 C25 C26 C27 C28 C30 C34".split():
+    wave[i + "b"] = 5
 def cell(s, n):
     s = re.sub(r'\s+', ' ', s).replace('|', '\\|')
     return s if len(s) <= n else s[:n - 1] + '…'
